@@ -249,6 +249,15 @@ def norm(s):
     return "".join(s.split())
 
 
+def words(s):
+    """the words of a row: blank cells separate words (how many, and blanks at either end, is not compared). A blank
+    before . ! ? , is not compared either: pycaption deliberately leaves the cell of a mid-row code out there
+    (tests/test_scc.py::test_mid_row_codes_*)"""
+    import re
+    # (also before an extended character whose stand-in is one of them: the inverted exclamation mark)
+    return re.sub(r" +([.!?,¡])", r"\1", " ".join(s.split()))
+
+
 def expected_from_reference(shown):
     """reference screen -> list of captions: consecutive rows = lines of one caption"""
     caps = []
@@ -261,13 +270,14 @@ def expected_from_reference(shown):
             else:
                 groups.append([r])
         for grp in groups:
-            lines, ital = [], []
+            lines, ital, wlines = [], [], []
             for r in grp:
                 cells = sh["rows"][r]
                 lines.append(norm(C.row_text(cells)))
+                wlines.append(words(C.row_text(cells)))
                 ital.append([(ch, it) for _, (ch, it) in sorted(cells.items()) if not ch.isspace()])
             first = sh["rows"][grp[0]]
-            caps.append({"lines": lines, "pos": (grp[0], min(first)), "italic": ital, "on": sh["on"], "off": sh["off"]})
+            caps.append({"lines": lines, "pos": (grp[0], min(first)), "italic": ital, "on": sh["on"], "off": sh["off"], "words": wlines})
     return caps
 
 
@@ -333,13 +343,15 @@ def bounded(ctx, b):
                     if nd.type_ == CaptionNode.TEXT and nd.position:
                         pos = tuple(nd.position)
                         break
-                got.append({"lines": lines, "pos": pos, "italic": italic_flags(cp.nodes), "balanced": balanced(cp.nodes),
+                got.append({"lines": lines, "pos": pos, "words": [words(x) for x in cp.get_text().split("\n")], "italic": italic_flags(cp.nodes), "balanced": balanced(cp.nodes),
                             "times": (cp.start, cp.end), "layout": (cp.layout_info.origin.x.value, cp.layout_info.origin.y.value) if cp.layout_info else None})
             detail = {"words": " ".join(ws), "got": [(g_["lines"], g_["pos"]) for g_ in got], "expected": [(e["lines"], e["pos"]) for e in exp]}
             if [g_["lines"] for g_ in got] != [e["lines"] for e in exp]:
                 return False, dict(detail, what="text / rows")
             if [g_["pos"] for g_ in got] != [e["pos"] for e in exp]:
                 return False, dict(detail, what="position")
+            if [g_["words"] for g_ in got] != [e["words"] for e in exp]:
+                return False, dict(detail, what="word separation (a mid-row code occupies a cell)", got_words=[g_["words"] for g_ in got], expected_words=[e["words"] for e in exp])
             for g_, e in zip(got, exp):
                 ex, ey = 10 + 80 * e["pos"][1] / 32, 5 + 90 * (e["pos"][0] - 1) / 15
                 if g_["layout"] is None or abs(g_["layout"][0] - ex) > 1e-9 or abs(g_["layout"][1] - ey) > 1e-9:
